@@ -284,7 +284,7 @@ def add_hpke(reg, new_other_curve=False):
     pkE = '%spk_canon(%s, enc)' % (R, kem)
     reg.add(Contract(HC + '._decap',
                      params={'enc': 'bytes', 'receiver_key': KEY, 'kem_id': 'int[0..65535]', 'hashmod': HASHMOD, 'sender_key': KEY + '|none'},
-                     requires=same_curve + ['receiver_key.has_private()', 'receiver_key.curve in %r' % (HPKE_CURVES,)],
+                     requires=same_curve + ['enc is not None', 'receiver_key.has_private()', 'receiver_key.curve in %r' % (HPKE_CURVES,)],
                      raises={'DeserializeError': ('iff', 'not %spk_ok(%s, enc)' % (R, kem)),
                              'ValueError': ('iff', '%spk_ok(%s, enc) and (%s or (sender_key is not None and %s))'
                                             % (R, kem, bad(pkE), bad(pkS)))},
@@ -563,3 +563,51 @@ def units(prop, tier):
                 pyvc_unit(prop, 'hpke.sender_step', registry, [S + 'sender_step']),
                 nonce_injective_unit(prop)]
     return []
+
+
+# ====================================================================================================================
+# NOT PROVED / assumed / notes (C15, C11)
+#
+# NOT PROVED: Crypto.Protocol.DH.key_agreement: modelled (m_key_agreement: Z = Ze || Zs for the four key combinations of RFC 9180
+#   4.1, ValueError iff a DH result is invalid), not verified here: DH.py belongs to the ECDH area (C06); its Python body is pure
+#   composition and could be verified against exactly this model with _compute_ecdh abstract.
+# NOT PROVED: the end-to-end round trip "unseal(seal(pt)) == pt for sender and receiver contexts set up from matching keys":
+#   it needs DH(skE, pkR) == DH(skR, pkE), pk_canon(Serialize(pk)) == Serialize(pk) (C06/C08 facts about the abstract key objects)
+#   and Open(Seal(pt)) == pt (C01); everything on the HPKE side of it is proved: both parties compute
+#   ks_key/ks_base_nonce(dhkem_secret(kem, dh, enc || pkRm [|| pkSm]), ...) from the same formula (__init__/new contracts),
+#   message number i is sealed and opened under nonce(base_nonce, i) (history steps below).
+# Entropy: the ephemeral key of a sender is any key ECC.generate returns; the contract speaks about it through `enc`
+#   (DH's private-key argument is designated by the serialization of ITS public key).
+# Instantiations (exhaustive): _encap/_decap per HPKE curve (5), __init__/new per curve name of EccKey (9) with all keys of one
+#   proof on that curve, plus new() with sender_key on a different curve (unit hpke.new.other_curve).
+#
+# History lemma (hpke_history), from the contracts of seal/unseal only (units hpke.history_steps, hpke.nonce_injective):
+#   receiver_step: INV ctx._sequence == accepted is preserved by ANY offered message; accepted' == accepted + 1 iff the message is
+#   >= 16 bytes, accepted < 2**96 - 1 and AEAD-authentic under nonce(base_nonce, accepted); otherwise ValueError and nothing changed.
+#   sender_step: INV ctx._sequence == sent; a successful seal is Seal(key, nonce(base_nonce, sent), aad, pt), sent' == sent + 1; refusal
+#   iff sent >= 2**96 - 1 with nothing changed.   By induction over the history (base: __init__ ensures _sequence == 0): the
+#   receiver's sequence number equals the number of accepted messages, the sender's i-th message can be accepted only at
+#   accepted == i, and (nonce_injective) no two messages of a context share a nonce.
+#
+# Finding met while writing the contracts (fixed in /repo by b56d0d60, clause now registered and proved): _decap accepted, for the
+#   NIST curves, every key format ECC.import_key understands as `enc` (compressed SEC1, DER, PEM, OpenSSH, even a private key),
+#   contrary to RFC 9180 7.1.1; clause: DeserializeError iff not spec.rfc9180.pk_ok(kem, enc).
+#
+# Mutants (tools/mut.py, lib/Crypto/Protocol/HPKE.py; exit code, obligation that caught it):
+#   unseal: `self._sequence -= 1` -> `-= 0` (the repaired defect D2)            1  unseal.unchanged_on_ValueError.obj1._sequence
+#   _new_cipher: `>= self._max_sequence` -> `>`                                 1  _new_cipher.raises_iff.MessageLimitReachedError.if, ensures.valid
+#   _new_cipher: to_bytes(.., 'big') -> 'little'  (C11)                         1  _new_cipher.ensures.nonce
+#   _labeled_expand: struct.pack('>H', L) -> '<H'                               1  _labeled_expand.ensures.value
+#   _key_schedule: label b'key' -> b'kez'                                       1  _key_schedule.ensures.key
+#   __init__: Nk table `== AEAD.AES128_GCM` -> `AES256_GCM`                     1  __init__.call_pre (Nk == aead_nk(aead_id) of _key_schedule)
+#   _Curve_Config: P-384 hash SHA384 -> SHA512                                  1  __init__.ensures.valid / key / base_nonce (unit hpke.init.P384)
+#   new: MODE.AUTH / MODE.AUTH_PSK swapped                                      1  new.raises_iff.*.only_if, ensures.mode
+#   new: `count_private_keys != 1` -> `== 0`                                    1  new.call_pre (exactly one private key, of __init__)
+#   _encap: extra_param = {'static_priv': sender_key} -> {} (AuthEncap DH lost) 1  _encap.ensures.auth
+#   _decap: kem_context = enc + pkRm -> pkRm + enc                              1  _decap.ensures.base / auth
+#   _decap: enc[0] != 4 -> != 3                                                 1  _decap.call_pre (import_key domain), raises_iff.DeserializeError.only_if
+#   _verify_psk_inputs: len(psk) < 32 -> < 31                                   1  _verify_psk_inputs.raises_iff.ValueError.if
+#   seal: aad update dropped                                                    1  seal.ensures.value
+#   __init__: `if enc is None:` check disabled                                  2  (None reaches _decap: undecided at the time; now call_pre `enc is not None`)
+#   benign: strxor operands swapped in _new_cipher                              0
+#   benign: locals ct, tag renamed in seal                                      0
